@@ -3,6 +3,7 @@ import DiffxVerif.Model.Hunks
 import DiffxVerif.Model.Reader
 import DiffxVerif.Model.Writer
 import Driver.Codec
+import Driver.DomCodec
 import Std.Data.HashMap
 /-!
 # Line-protocol driver: runs the model's executable definitions
@@ -113,6 +114,34 @@ def opUntil (args : List String) : String :=
     | _, _ => "E bad-args"
   | _ => "E bad-args"
 
+def showNl (r : Reader.M Bytes) : String :=
+  match r with
+  | .ok b => "R " ++ encBytes b
+  | .error (.needEnv q) => "Q " ++ q
+  | .error _ => "R err"
+
+/-- `nlfor <enc|~> <dos>` : `get_newline_for_type` -/
+def opNlFor (cfg : Config) (tbl : Table) (args : List String) : String :=
+  match args with
+  | [e, d] =>
+    match decOptText e with
+    | some enc => showNl (Reader.newlineFor (mkEnv tbl) cfg 0 (d == "1") enc)
+    | none => "E bad-args"
+  | _ => "E bad-args"
+
+/-- `guess <enc|~> <data>` : `guess_line_endings` on bytes -/
+def opGuess (cfg : Config) (tbl : Table) (args : List String) : String :=
+  match args with
+  | [e, d] =>
+    match decOptText e, decBytes d with
+    | some enc, some data =>
+      match Reader.guessLineEndings (mkEnv tbl) cfg 0 data enc with
+      | .ok (dos, nl) => s!"R {if dos then 1 else 0} {encBytes nl}"
+      | .error (.needEnv q) => "Q " ++ q
+      | .error _ => "R err"
+    | _, _ => "E bad-args"
+  | _ => "E bad-args"
+
 def opSplit (args : List String) : String :=
   match args with
   | [k, nl, d] =>
@@ -205,6 +234,93 @@ def opWrite (cfg : Config) (tbl : Table) (args : List String) : String :=
     | _, _, _, _ => "E bad-args"
   | _ => "E bad-args"
 
+/-! ### object model -/
+
+def writerVersion : Text := Text.ofAscii b!"1.0"
+
+def showWErr : Dom.WErr → String
+  | .typeError => "err:TypeError"
+  | .writer r => "err:" ++ showResult r
+
+def opDomWrite (cfg : Config) (tbl : Table) (args : List String) : String :=
+  match args with
+  | [t] =>
+    match decTree t with
+    | some tree =>
+      match Dom.toBytes (mkEnv tbl) cfg writerVersion tree with
+      | .ok b => "R ok " ++ encBytes b
+      | .error (.writer (.needEnv q)) => "Q " ++ q
+      | .error e => "R " ++ showWErr e
+    | none => "E bad-tree"
+  | _ => "E bad-args"
+
+def opDomRead (cfg : Config) (tbl : Table) (args : List String) : String :=
+  match args with
+  | [d] =>
+    match decBytes d with
+    | some data =>
+      match Dom.fromBytes (mkEnv tbl) cfg writerVersion data with
+      | .ok t => "R ok " ++ encTree t
+      | .error (.needEnv q) => "Q " ++ q
+      | .error (.parse l c) => s!"R perr:{l}:{showOptNat c}"
+      | .error .library => "R lib"
+      | .error .typeError => "R TypeError"
+      | .error .readerOther => "R other"
+    | none => "E bad-args"
+  | _ => "E bad-args"
+
+def opDomStats (cfg : Config) (tbl : Table) (args : List String) : String :=
+  match args with
+  | [t] =>
+    match decTree t with
+    | some tree =>
+      match Dom.Tree.genStats (mkEnv tbl) cfg tree with
+      | .ok t' => "R ok " ++ encTree t'
+      | .error (.needEnv q) => "Q " ++ q
+      | .error .raised => "R raised"
+    | none => "E bad-tree"
+  | _ => "E bad-args"
+
+def showSetErr : Dom.SetErr → String
+  | .optionType => "optionType" | .optionChoice => "optionChoice"
+  | .contentType => "contentType" | .unknown => "unknown"
+
+/-- `domset <tree> <path> <hexname> <pyval>`; path `m` | `c<i>` | `c<i>f<j>` -/
+def opDomSet (args : List String) : String :=
+  match args with
+  | [t, path, name, v] =>
+    match decTree t, unhexL name.toList, decPy v with
+    | some tree, some nm, some val =>
+      let res : Option (Except Dom.SetErr Dom.Tree) :=
+        if path == "m" then some (tree.setAttr nm val)
+        else match (path.drop 1).toString.splitOn "f" with
+          | [ci] => do
+            let i ← ci.toNat?
+            let c ← tree.changes[i]?
+            pure ((c.setAttr nm val).map fun c' => { tree with changes := tree.changes.set i c' })
+          | [ci, fi] => do
+            let i ← ci.toNat?
+            let j ← fi.toNat?
+            let c ← tree.changes[i]?
+            let f ← c.files[j]?
+            pure ((f.setAttr nm val).map fun f' =>
+              { tree with changes := tree.changes.set i { c with files := c.files.set j f' } })
+          | _ => none
+      match res with
+      | some (.ok t') => "R ok " ++ encTree t'
+      | some (.error e) => "R err:" ++ showSetErr e ++ " " ++ encTree tree
+      | none => "E bad-path"
+    | _, _, _ => "E bad-args"
+  | _ => "E bad-args"
+
+def opDomEq (args : List String) : String :=
+  match args with
+  | [a, b] =>
+    match decTree a, decTree b with
+    | some x, some y => if x.pyEq y then "R 1" else "R 0"
+    | _, _ => "E bad-tree"
+  | _ => "E bad-args"
+
 def parseTable : List String → Table → Table
   | k :: v :: r, t => parseTable r (t.insert k v)
   | _, t => t
@@ -220,8 +336,15 @@ def runOp (s : DState) (toks : List String) : String :=
   | "split" :: args => opSplit args
   | "hunks" :: args => opHunks args
   | "until" :: args => opUntil args
+  | "nlfor" :: args => opNlFor s.cfg s.tbl args
+  | "guess" :: args => opGuess s.cfg s.tbl args
   | "read" :: args => opRead s.cfg s.tbl args
   | "write" :: args => opWrite s.cfg s.tbl args
+  | "domwrite" :: args => opDomWrite s.cfg s.tbl args
+  | "domread" :: args => opDomRead s.cfg s.tbl args
+  | "domstats" :: args => opDomStats s.cfg s.tbl args
+  | "domset" :: args => opDomSet args
+  | "domeq" :: args => opDomEq args
   | _ => "E bad-op"
 
 /-- `env k v k v …` adds environment answers (kept for later requests);
